@@ -57,11 +57,13 @@ def dump_resolver(fn):
 
 
 def copy_sig(r):
-    return {"uninspectable": r["uninspectable"], "params": [dict(p) for p in r["params"]]}
+    return {"uninspectable": r["uninspectable"], "not_callable": r.get("not_callable", False), "params": [dict(p) for p in r["params"]]}
 
 
 def _dump_resolver(fn):
     import inspect
+    if not callable(fn):
+        return {"uninspectable": True, "not_callable": True, "params": []}
     try:
         sig = inspect.signature(fn, follow_wrapped=False)   # what a call of `fn` binds, not what it decorates
     except (ValueError, TypeError):      # TypeError: not a callable at all
